@@ -297,4 +297,10 @@ for _p in ("C01", "C02", "C03", "C04", "C05", "C06", "C07", "C10", "C11", "C12",
     META[_p]["asan"] = True
     MANIFEST_TEXT[_p]["technique"] += "; thorough tier adds an AddressSanitizer build of the same workload (self-tested, report = violation)"
 
+# Interpreter lane (thorough tier): tiny workloads (harness/src/props/sanlane.rs) under Miri on a scratch copy of /repo
+# (compat/nightly_compat.py): undefined behaviour in the unsafe code reached, data races between database threads.
+for _p, _lanes in (("C01", ["MIRI-column", "MIRI-db"]), ("C07", ["MIRI-column", "MIRI-db"]), ("C10", ["MIRI-db"]), ("C14", ["MIRI-files"]), ("C16", ["MIRI-codec"])):
+    META[_p]["miri"] = _lanes
+    MANIFEST_TEXT[_p]["technique"] += "; thorough tier adds a Miri (undefined-behaviour / data-race interpreter) run of tiny versions of the workload (self-tested, report = violation)"
+
 META["C17"]["floors"]["quick"].setdefault("sets", {})["full_precision_column_kinds"] = ["dense_float", "nullable_float"]
